@@ -219,13 +219,9 @@ Fixpoint ueval (en : env) (t : uexpr) : val :=
   | UStartsWith a b => str2 (fun s q => is_prefix q s) (ueval en a) (ueval en b)
   | UEndsWith a b => str2 (fun s q => is_suffix q s) (ueval en a) (ueval en b)
   | USubstr a p l =>
-      match ueval en a, ueval en p, ueval en l with
-      | VStr s, VInt p, VInt l =>
-          if (1 <=? p) && (0 <=? l) then VStr (stake (Z.to_nat l) (sdrop (Z.to_nat (p - 1)) s)) else VNull
-      | _, _, _ => VNull
-      end
+      substr3 substr_spark (ueval en a) (ueval en p) (ueval en l)
   | UWhen bs => uevalb en bs
-  | UCast a ty => cast_to ty (ueval en a)
+  | UCast a ty => cast_spark ty (ueval en a)
   | UAlias a _ => ueval en a
   | UGetItemLit a k =>
       match ubase a with
@@ -263,6 +259,30 @@ with udomb (en : env) (bs : ubranches) : bool :=
   | UBWhen c v r => udom en c && udom en v && udomb en r
   end.
 
+(** rows on which the ENGINE's primitive and SPARK's primitive give the same answer at every node where the two are
+    defined differently (substring position 0; a fractional value cast to an integer type).  Outside it the
+    implementation may differ from PySpark even when the tree is preserved: such rows are not excluded from the
+    property, they are refutation material. *)
+Fixpoint agree (en : env) (t : uexpr) : bool :=
+  match t with
+  | UCol _ | ULit _ | UPy _ => true
+  | UBin _ a b | UNse a b | UStartsWith a b | UEndsWith a b | UGetItemCol a b => agree en a && agree en b
+  | URBin _ _ a | UNeg a | UNot a | UIsNull a | UIsNotNull a | UIsin a _ | ULike a _ | UILike a _
+  | URlike a _ | UAlias a _ | UGetItemLit a _ => agree en a
+  | UCast a ty => agree en a && val_eqb (cast_to ty (ueval en a)) (cast_spark ty (ueval en a))
+  | UBetween a b c => agree en a && agree en b && agree en c
+  | USubstr a b c => agree en a && agree en b && agree en c &&
+      val_eqb (substr3 substr_duck (ueval en a) (ueval en b) (ueval en c))
+              (substr3 substr_spark (ueval en a) (ueval en b) (ueval en c))
+  | UWhen bs => agreeb en bs
+  end
+with agreeb (en : env) (bs : ubranches) : bool :=
+  match bs with
+  | UBEnd => true
+  | UBElse e => agree en e
+  | UBWhen c v r => agree en c && agree en v && agreeb en r
+  end.
+
 (** ---- value: the intended tree, evaluated by SQL's 3VL, is PySpark's value -------------------- *)
 Lemma index_shift l k : 0 <= k -> index1 l (k + 1) = index0 l k.
 Proof.
@@ -276,17 +296,20 @@ Lemma abase_denote t : abase (denote t) = ubase t.
 Proof. induction t; cbn [denote abase ubase]; auto. Qed.
 
 Lemma value_mut :
-  (forall t en, udom en t = true -> seval en (denote t) = ueval en t) /\
-  (forall bs en, udomb en bs = true -> sevalb en (denoteb bs) = uevalb en bs).
+  (forall t en, udom en t = true -> agree en t = true -> seval en (denote t) = ueval en t) /\
+  (forall bs en, udomb en bs = true -> agreeb en bs = true -> sevalb en (denoteb bs) = uevalb en bs).
 Proof.
-  apply uexpr_ubranches_ind; intros; cbn [denote denoteb seval sevalb ueval uevalb udom udomb] in *;
+  apply uexpr_ubranches_ind; intros; cbn [denote denoteb seval sevalb ueval uevalb udom udomb agree agreeb] in *;
     repeat match goal with
            | H : _ && _ = true |- _ => apply andb_prop in H; destruct H
            end;
     repeat match goal with
-           | IH : forall en, udom en ?t = true -> _, D : udom ?en ?t = true |- _ => rewrite (IH en D); clear IH
-           | IH : forall en, udomb en ?t = true -> _, D : udomb ?en ?t = true |- _ => rewrite (IH en D); clear IH
-           end; try reflexivity.
+           | IH : forall en, udom en ?t = true -> agree en ?t = true -> _, D : udom ?en ?t = true, A : agree ?en ?t = true |- _ =>
+               rewrite (IH en D A); clear IH
+           | IH : forall en, udomb en ?t = true -> agreeb en ?t = true -> _, D : udomb ?en ?t = true, A : agreeb ?en ?t = true |- _ =>
+               rewrite (IH en D A); clear IH
+           end; try reflexivity;
+    try (match goal with E : val_eqb _ _ = true |- _ => apply val_eqb_eq in E end; cbn [call3 String.eqb Ascii.eqb Bool.eqb]; assumption).
   - (* isNotNull *) destruct (ueval en a); reflexivity.
   - (* getItem literal *) rewrite abase_denote. destruct (ubase a); [|reflexivity].
     cbn [bin3 arith num_of is_int andb mk_num].
